@@ -5,6 +5,7 @@ use crate::engine::Property;
 pub mod c01;
 pub mod c02;
 pub mod c03;
+pub mod c04;
 pub mod c05;
 pub mod c09;
 pub mod c12;
@@ -17,6 +18,7 @@ pub mod mergefam;
 pub fn all() -> Vec<Box<dyn Property>> {
     vec![Box::new(c01::prop()), Box::new(c02::prop()),
         Box::new(c03::prop()),
+        Box::new(c04::prop()),
         Box::new(c05::prop()),
         Box::new(c09::prop()),
         Box::new(c12::prop()),
